@@ -252,13 +252,21 @@ HANDLERS = {
                         'HAccess "_rpyc_delattr"%string "allow_delattr"%string "delattr"%string 0'),
     "_handle_setattr": ("def _handle_setattr(self, obj, name, value):\n    return self._access_attr(obj, name, (value,), '_rpyc_setattr', 'allow_setattr', setattr)",
                         'HAccess "_rpyc_setattr"%string "allow_setattr"%string "setattr"%string 1'),
-    "_handle_cmp": ("def _handle_cmp(self, obj, other, op='__cmp__'):\n    try:\n        return self._access_attr(type(obj), op, (), '_rpyc_getattr', 'allow_getattr', getattr)(obj, other)\n"
-                    "    except Exception:\n        raise", 'HCmpType "_rpyc_getattr"%string "allow_getattr"%string "getattr"%string'),
+
     "_handle_call": ("def _handle_call(self, obj, args, kwargs=()):\n    return obj(*args, **dict(kwargs))", "HCallObj"),
-    "_handle_callattr": ("def _handle_callattr(self, obj, name, args, kwargs=()):\n    obj = self._handle_getattr(obj, name)\n    return self._handle_call(obj, args, kwargs)",
-                         "HGetThenCall"),
     "_handle_buffiter": ("def _handle_buffiter(self, obj, count):\n    return tuple(itertools.islice(obj, count))", "HIslice"),
 }
+# the two handlers behind operators, in the original form and in the form that completes the binary-operator protocol on the
+# owner's side (self._reflect) -- both or neither
+CMP_ORIGINAL = ("def _handle_cmp(self, obj, other, op='__cmp__'):\n    try:\n        return self._access_attr(type(obj), op, (), '_rpyc_getattr', 'allow_getattr', getattr)(obj, other)\n"
+                "    except Exception:\n        raise")
+CMP_REFLECTING = ("def _handle_cmp(self, obj, other, op='__cmp__'):\n    try:\n        return self._reflect(obj, op, (other,), self._access_attr(type(obj), op, (), '_rpyc_getattr', 'allow_getattr', getattr)(obj, other))\n"
+                  "    except Exception:\n        raise")
+CALLATTR_ORIGINAL = "def _handle_callattr(self, obj, name, args, kwargs=()):\n    obj = self._handle_getattr(obj, name)\n    return self._handle_call(obj, args, kwargs)"
+CALLATTR_REFLECTING = ("def _handle_callattr(self, obj, name, args, kwargs=()):\n    res = self._handle_call(self._handle_getattr(obj, name), args, kwargs)\n"
+                       "    return res if kwargs else self._reflect(obj, name, args, res)")
+REFLECT = ("def _reflect(self, obj, name, args, res):\n    if res is NotImplemented and name in _REFLECTED and (len(args) == 1) and brine.dumpable(args[0]):\n"
+           "        reflected = getattr(type(args[0]), _REFLECTED[name], None)\n        if reflected is not None:\n            return reflected(args[0], obj)\n    return res")
 CTXEXIT_ORIGINAL = ("def _handle_ctxexit(self, obj, exc):\n    if exc:\n        try:\n            raise exc\n        except Exception:\n"
                     "            exc, typ, tb = sys.exc_info()\n    else:\n        typ = tb = None\n    return self._handle_getattr(obj, '__exit__')(exc, typ, tb)")
 CTXEXIT_REPAIRED = ("def _handle_ctxexit(self, obj, exc):\n    if exc:\n        try:\n            raise self._unbox_exc(exc)\n        except Exception:\n"
@@ -290,9 +298,38 @@ def handlers(repo, shapes):
     raises_unboxed = got == CTXEXIT_REPAIRED
     if got not in (CTXEXIT_ORIGINAL, CTXEXIT_REPAIRED):
         bad.append("_handle_ctxexit")
+    # operators
+    cmp_, call_ = func_shape(find_func(cls, "_handle_cmp")), func_shape(find_func(cls, "_handle_callattr"))
+    shapes["_handle_cmp"], shapes["_handle_callattr"] = cmp_, call_
+    reflects, table_items = False, []
+    if (cmp_, call_) == (CMP_ORIGINAL, CALLATTR_ORIGINAL):
+        if any(isinstance(n, ast.FunctionDef) and n.name == "_reflect" for n in cls.body):
+            bad.append("_reflect (defined but not used by both operator handlers)")
+    elif (cmp_, call_) == (CMP_REFLECTING, CALLATTR_REFLECTING):
+        try:
+            rf = func_shape(find_func(cls, "_reflect"))
+        except Unrecognised:
+            rf = None
+        shapes["_reflect"] = rf or "<missing>"
+        if rf is None or ast.dump(ast.parse(rf)) != ast.dump(ast.parse(REFLECT)):
+            bad.append("_reflect")
+        else:
+            d = find_assign(tree, "_REFLECTED")
+            if not (isinstance(d, ast.Dict) and all(isinstance(k, ast.Constant) and isinstance(v, ast.Constant) and isinstance(k.value, str)
+                                                    and isinstance(v.value, str) for k, v in zip(d.keys, d.values))):
+                bad.append("_REFLECTED")
+            else:
+                reflects, table_items = True, [(k.value, v.value) for k, v in zip(d.keys, d.values)]
+    else:
+        bad.append("_handle_cmp/_handle_callattr (one completes the operator protocol, the other does not, or neither form)")
+    if "_handle_cmp" in table and "_handle_callattr" in table:
+        out.append((table["_handle_cmp"], 'HCmpType "_rpyc_getattr"%string "allow_getattr"%string "getattr"%string reflects'))
+        out.append((table["_handle_callattr"], "HGetThenCall reflects"))
+    else:
+        bad.append("operator handlers not in _request_handlers")
     if bad:
         raise Unrecognised("body of " + ", ".join(bad))
-    return out, table["_handle_ctxexit"], raises_unboxed
+    return out, table["_handle_ctxexit"], raises_unboxed, reflects, table_items
 
 
 # ------------------------------------------------------------------ buffiter (helpers.py)
@@ -437,7 +474,7 @@ def translate(repo):
     hshapes = {}
 
     def handler_bodies():
-        rows, exit_handler, raises_unboxed = handlers(repo, hshapes)
+        rows, exit_handler, raises_unboxed, reflects, rtable = handlers(repo, hshapes)
         delivers = bool(facts.get("exit_by_value")) and raises_unboxed
         if bool(facts.get("exit_by_value")) != raises_unboxed:
             raise Unrecognised("__exit__ and _handle_ctxexit disagree about how the exception travels")
@@ -447,6 +484,8 @@ def translate(repo):
         rows.sort(key=lambda r: (order + ["HANDLE_BUFFITER"]).index(r.split('"')[1]) if r.split('"')[1] in order + ["HANDLE_BUFFITER"] else 99)
         rows.insert(len(order), "(%s, HCtxExit ctxexit_delivers)" % coq_string(exit_handler))
         return [typed("ctxexit_delivers", "bool", coq_bool(delivers)),
+                typed("reflects", "bool", coq_bool(reflects)),
+                typed("reflected_table", "list (string * string)", coq_list("(%s, %s)" % (coq_string(a), coq_string(b)) for a, b in rtable)),
                 typed("handler_bodies", "list (string * hbody)", coq_list(rows))]
     guarded(handler_bodies)
 
@@ -465,6 +504,72 @@ def translate(repo):
                 typed("get_methods_adds_metaclass_for_classes", "bool", coq_bool("list(reversed(type(obj).__mro__)) + list(reversed(obj.__mro__))" in got))]
     guarded(methods_rule)
 
+    # ---- class queries: the class descriptor, how class_factory finds a class for it, and __instancecheck__
+    IC_HEAD = ("def __instancecheck__(self, other):\n    if isinstance(other, BaseNetref):\n        if self.____id_pack__[2] != 0:\n"
+               "            raise TypeError('isinstance() arg 2 must be a class, type, or tuple of classes and types')\n"
+               "        elif self.____id_pack__[1] == other.____id_pack__[1]:\n            if other.____id_pack__[2] == 0:\n                return False\n"
+               "            elif other.____id_pack__[2] != 0:\n                return True\n        else:\n"
+               "            return syncreq(self, consts.HANDLE_INSTANCECHECK, other.____id_pack__)\n    elif self.____id_pack__[2] == 0:\n")
+    IC_TAIL = "\n    else:\n        raise TypeError('isinstance() arg 2 must be a class, type, or tuple of classes and types')"
+    IC_ORIGINAL = IC_HEAD + "        return isinstance(other, type(self).__dict__['__class__'].instance)" + IC_TAIL
+    IC_REPAIRED = (IC_HEAD + "        descriptor = type(self).__dict__['__class__']\n        if descriptor is None:\n"
+                   "            return syncreq(self, consts.HANDLE_CALLATTR, '__instancecheck__', (other,), ())\n"
+                   "        return isinstance(other, descriptor.instance)" + IC_TAIL)
+    DESCRIPTOR_GET = "def __get__(self, netref_instance, netref_owner):\n    return self.owner if netref_instance.____id_pack__[2] == 0 else self.instance"
+
+    def class_queries():
+        ic = func_shape(find_func(base, "__instancecheck__"))
+        if ic == IC_ORIGINAL:
+            asks = False
+        elif ic == IC_REPAIRED:
+            asks = True
+        else:
+            raise Unrecognised("__instancecheck__")
+        nc = find_class(tree, "NetrefClass")
+        getter = func_shape(find_func(nc, "__get__")) == DESCRIPTOR_GET
+        props = {n.name: _u(n.body[-1]) for n in nc.body if isinstance(n, ast.FunctionDef) and n.name in ("instance", "owner")}
+        getter = getter and props == {"instance": "return self._class_obj", "owner": "return self._class_obj.__class__"}
+        cf = func_shape(find_func(tree, "class_factory"))
+        by_name = all(t in cf for t in ("_builtin_class = _normalized_builtin_types.get(name_pack)", "_module = sys.modules.get(name_pack[:cursor])",
+                                        "_class = getattr(_module, _class_name, None)", "ns['__class__'] = class_descriptor"))
+        return [typed("instancecheck_asks_owner", "bool", coq_bool(asks)),
+                typed("instancecheck_route", "bool -> bool -> bool -> bool -> bool -> icroute",
+                      "fun resolved other_is_proxy self_is_class same_class_id other_is_class : bool => "
+                      "if other_is_proxy then (if negb self_is_class then ICRaiseTypeError else if same_class_id then (if other_is_class then ICFalse else ICTrue) "
+                      "else ICSync \"HANDLE_INSTANCECHECK\"%string) "
+                      "else if self_is_class then (" + ("if negb resolved then ICSync \"HANDLE_CALLATTR\"%string else ICLocalIsinstance" if asks else
+                                                        "if negb resolved then ICAttributeError else ICLocalIsinstance") + ") else ICRaiseTypeError"),
+                typed("class_descriptor_owner_for_classes_instance_for_instances", "bool", coq_bool(getter)),
+                typed("class_found_by_module_qualified_name", "bool", coq_bool(by_name))]
+    guarded(class_queries)
+
+    # ---- module level: the list of types whose proxy class is generated once at import time, and the loop that generates them
+    BUILTIN_LOOP = ("for _builtin in _builtin_types:\n    _id_pack = get_id_pack(_builtin)\n    _name_pack = _id_pack[0]\n"
+                    "    _normalized_builtin_types[_name_pack] = _builtin\n    _builtin_methods = get_methods(LOCAL_ATTRS, _builtin)\n"
+                    "    builtin_classes_cache[_name_pack] = class_factory(_id_pack, _builtin_methods)")
+
+    def module_level():
+        bt = find_assign(tree, "_builtin_types")
+        if not isinstance(bt, ast.List):
+            raise Unrecognised("_builtin_types")
+        loops = [n for n in tree.body if isinstance(n, (ast.For, ast.While))]
+        if len(loops) != 1:
+            raise Unrecognised("module-level loops: %d" % len(loops))
+        return [typed("builtin_types", "list string", coq_list(coq_string(_u(e)) for e in bt.elts)),
+                typed("builtin_loop_as_expected", "bool", coq_bool(_u(loops[0]) == BUILTIN_LOOP))]
+    guarded(module_level)
+    # every module-level statement that is not a definition or an import, and every method of every class
+    stmts = [n for n in tree.body if not isinstance(n, (ast.FunctionDef, ast.ClassDef, ast.Import, ast.ImportFrom))
+             and not (isinstance(n, ast.Expr) and isinstance(n.value, ast.Constant))]
+    items.append(shape("module.statements", "\n".join(_u(n) for n in stmts)))
+    for c in tree.body:
+        if isinstance(c, ast.ClassDef) and c.name != "BaseNetref":
+            items.append(shape("class." + c.name, "class %s(%s)" % (c.name, ", ".join(_u(b) for b in c.bases))))
+            for n in c.body:
+                if isinstance(n, ast.FunctionDef):
+                    items.append(shape(c.name + "." + n.name, func_shape(n)))
+    items.append(shape("class.BaseNetref", "class BaseNetref(%s); __slots__ = %s" % (", ".join(_u(b) for b in base.bases),
+                       ", ".join(_u(n.value) for n in base.body if isinstance(n, ast.Assign) and _u(n.targets[0]) == "__slots__"))))
     # ---- shape snapshots of everything the tables were read from
     for n in base.body:
         if isinstance(n, ast.FunctionDef):
